@@ -366,7 +366,12 @@ fn main() {
                     // one join offset in three: cleanup() after every packet, as an application timer (and the crate's own
                     // tests) call it - housekeeping must not throw away what the late joiner is in the middle of receiving
                     o.cleanup_every_push = j % 3 == 1;
-                    receive(&b.run.spec.endpoint(), b.run.stream[j..end].iter().map(|p| (p.bytes.as_slice(), p.t)), &o, None)
+                    // aged configurations (short-lived instances, sender time stamped in EXT_TIME): the receiver's clock is
+                    // that of the sender, 3 s ahead of it, 3 s behind it or one hour ahead - expiry is judged on the
+                    // sender's clock, so the skew changes nothing
+                    let skew_ms: i64 = if b.cfg.aged > 0 && b.run.spec.inband_sct { [0i64, 3_000, -3_000, 3_600_000][j % 4] } else { 0 };
+                    let shift = |t: std::time::SystemTime| if skew_ms >= 0 { t + std::time::Duration::from_millis(skew_ms as u64) } else { t - std::time::Duration::from_millis((-skew_ms) as u64) };
+                    receive(&b.run.spec.endpoint(), b.run.stream[j..end].iter().map(|p| (p.bytes.as_slice(), shift(p.t))), &o, None)
                 });
                 let wit = |extra: serde_json::Value| json!({"config": b.cfg.name(), "join_offset": j, "window_end": end, "detail": extra,
                     "joined_at": format!("toi={} sbn={} esi={}", b.run.stream[j].toi(), b.run.stream[j].dec.sbn, b.run.stream[j].dec.esi),
@@ -395,6 +400,7 @@ fn main() {
                             .with("fec", b.cfg.fec.name()).with("inband_fti", b.cfg.inband_fti).with("full_fdt", b.cfg.full_fdt).with("cenc", b.cfg.cenc.name()).with("inband_cenc", b.cfg.inband_cenc)
                             .with("join_kind", join_kind).with("no_writer", ws.is_empty()).with("receiver_keeps_failed_objects", j % 2 == 1).with("cleanup_after_every_push", j % 3 == 1)
                             .with("joined_after_first_instances_expired", late).with("sender_set_complete", b.cfg.aged == 2)
+                            .with("receiver_clock_skew_ms", if b.cfg.aged > 0 && b.run.spec.inband_sct { [0i64, 3_000, -3_000, 3_600_000][j % 4] } else { 0 })
                             .witness(wit(json!({"object": k, "writers": traces}))));
                     }
                     if let Some(w) = ws.last() {
